@@ -7,7 +7,7 @@ kf = json.load(open(kfp))
 log = [l.split(" ", 1) for l in subprocess.check_output(["git", "-C", "/repo", "log", "--format=%h %s"]).decode().splitlines()]
 fixes = [(h, s[5:]) for h, s in log if s.startswith("fix:")]
 byhash = {h: s for h, s in fixes}
-RULES = [("reading a memory location from a map overwrote", "C13"), ("big-endian read spanning written", "C02"), ("escaping the recursive decode behind a prefix", "C11"), ("fat Mach-O files never parsed", "C14"), ("merge of two maps lost", "C19"), ("CntField", "C16"), ("RISC-V shift and signed-comparison", "C10"), ("semantics wrote sign flags into shared register", "C10"), ("eBPF decoding wrote the sign flag", "C10"),
+RULES = [("unions defined with UnionDefine had no formatter table", "C14"), ("reading a memory location from a map overwrote", "C13"), ("big-endian read spanning written", "C02"), ("escaping the recursive decode behind a prefix", "C11"), ("fat Mach-O files never parsed", "C14"), ("merge of two maps lost", "C19"), ("CntField", "C16"), ("RISC-V shift and signed-comparison", "C10"), ("semantics wrote sign flags into shared register", "C10"), ("eBPF decoding wrote the sign flag", "C10"),
          ("SIB addressing without base register", "C06"), ("RV32I", "C06"), ("RV64I", "C06"), ("x64 ", "C06"), ("x86/x64", "C06")]
 fixed = [f for f in kf["findings"] if f["status"] == "fixed"]
 seen = set()
